@@ -298,7 +298,7 @@ fn update_case(prop: &str, rng: &mut Rng, idx: u64) -> CaseRec {
                         }
                     }
                 }
-                let cfg = if rng.chance(1, 4) { " {timeout: 5s}" } else { "" };
+                let cfg = if rng.chance(1, 4) { *rng.pick(&[" {timeout: 5s}", " {timeout: 5s}", " { \ttimeout: 5s}", " {\u{a0}timeout: 5s}"]) } else { "" };
                 let comment = if rng.chance(1, 4) { "# a comment\n" } else { "" };
                 let fence = if rng.chance(1, 5) { "````" } else { "```" };
                 doc.push_str(&format!("# t{i}\n\n{fence}scrut{cfg}\n{comment}$ cmd{i}\n"));
@@ -1232,7 +1232,7 @@ fn c10_case(prop: &str, doc: &str, kinds: &[u64], tag: &str) -> CaseRec {
 
 /// lines that hit every branch of the tokenizer and of the block writer
 const C10_LINES: [&str; 12] = ["---", "```scrut", "```", "````scrut {timeout: 5s}", "# c", "$ x", "out", "", "```py", "```scrut {  }", "``` scrut  {a: 1} ", "````"];
-const C10_LINES_MORE: [&str; 14] = ["--- ", " ---", "`````", "```scrut {a: 1} trailing", "é```", "```scrut\u{a0}{x}", "~~~", "#", "> y", "[1]", "\t", "```scrutx", "``", "```scrut{timeout: 1s}"];
+const C10_LINES_MORE: [&str; 16] = ["```scrut {\u{a0}a: 1}", "```scrut { \u{3000} }", "--- ", " ---", "`````", "```scrut {a: 1} trailing", "é```", "```scrut\u{a0}{x}", "~~~", "#", "> y", "[1]", "\t", "```scrutx", "``", "```scrut{timeout: 1s}"];
 const C10_KINDS: [&[u64]; 6] = [&[1, 4], &[0, 2, 3], &[], &[8], &[7, 5], &[6, 1, 0, 4]];
 
 fn c10_run(ctx: &Ctx, prop: &str) {
